@@ -534,6 +534,20 @@ Theorem C01_read_fault_ledger :
 Proof. exact read_fault_ledger. Qed.
 Print Assumptions C01_read_fault_ledger.
 
+
+(* an operation one of whose reads failed never reports success: either that read position is not reached -
+   then the run IS the fault-free run of Engine/Ops.v (ledger, cluster, outcome, trace) - or the outcome is
+   an error ("after an operation reports success ..." is never claimed on the strength of a failed lookup) *)
+Theorem C01_read_fault_never_success :
+  forall (K : Type) (kh : forall e : eff, K -> K * resp e * list kev) (dresp : forall e, resp e)
+         (rn ns : string) (o : op) (n : nat) (l : list release) (k : K),
+    run_opR K kh dresp rn ns o n l k
+      = (let '(s, out) := run K kh dresp (mkSF None None) (op_prog rn ns o) (mkR l k 0 0 false []) in
+         (led s, ks s, out, tr s))
+    \/ snd (fst (run_opR K kh dresp rn ns o n l k)) <> OOk.
+Proof. exact read_fault_never_success. Qed.
+Print Assumptions C01_read_fault_never_success.
+
 (* and along every history whose operations carry a crash point or a read fault *)
 Theorem C01_read_or_crash_history_ledger :
   forall (K : Type) (kh : forall e : eff, K -> K * resp e * list kev) (dresp : forall e, resp e)
